@@ -110,6 +110,17 @@ def run_mean(case, bus, ex):
             continue
         bus.skip("mean_conserved", "non-finite trajectory")
     if name == "stepper.NavierStokesVelocity":
+        # the property says "for every state": a compressible (white-noise) velocity state is judged too. The documented rotational-form equation has
+        # mean N(u) = mean(u div u) != 0 there, so the mean drifts - reported as known finding F12 (the library follows its documented equation; the
+        # property's "every state" over-reaches for non-solenoidal inputs). Divergence-free states are judged strictly above.
+        u = G.random_state(rng, "white", 3, 3, N, amp=0.5) + rng.normal(size=(3, 1, 1, 1))
+        o = np.asarray(st(jnp.asarray(u)))
+        if np.all(np.isfinite(o)):
+            kfull = G.kint_full(3, N).astype(float)
+            dv = float(np.max(np.abs((1j * kfull * G.fftn(G.remove_nyquist(u, 3), 3)).sum(0)))) / (float(np.max(np.abs(G.fftn(u, 3)))) * (N / 2) + 1e-300)
+            drift = float(np.max(np.abs(o.mean(axis=(1, 2, 3)) - u.mean(axis=(1, 2, 3)))))
+            S = float(np.max(np.abs(u)) + np.max(np.abs(o)))
+            bus.judge("mean_conserved", drift / S, 64 * EPS * (1 + np.log2(N ** 3)), sig + ("compressible white noise",), witness=dict(intent=it, state="white (compressible)", compressible_input=True, rel_divergence=dv, drift=drift, S=S))
         # identity for arbitrary (compressible) u: mean N(u) = mean(u_K div u_K)
         nf = st._integrator._nonlinear_fun
         u = G.random_state(rng, "white", 3, 3, N)
@@ -313,3 +324,11 @@ def run_case(case, bus, ex):
     if case["kind"] == "realistic":
         return run_realistic(case, bus, ex)
     return {"mean": run_mean, "nowork": run_nowork, "fixed": run_fixed}[case["kind"]](case, bus, ex)
+
+
+def classify(v):
+    w = v.get("witness") or {}
+    it = w.get("intent") or {}
+    if v["monitor"] == "mean_conserved" and it.get("cls") in ("stepper.NavierStokesVelocity", "stepper.KolmogorovFlowVelocity") and w.get("compressible_input") and w.get("rel_divergence", 0) > 1e-6:
+        return "F12-ns3d-mean-drift-on-compressible-states"
+    return None
